@@ -40,6 +40,15 @@ Theorem C09_returns_partial : forall c s i k,
 Proof. exact CallLifeProofs.returns_partial. Qed.
 Print Assumptions C09_returns_partial.
 
+(* ... with the wait for connLock made explicit (the "position in the dial queue"): k_w = how many dials of other calls
+   ended while this call waited for connLock; every one of them costs at most one DialTimeout.  The bound is attained by
+   the witness of C09_returns_refuted_stalled_dial (Example position_bound_attained). *)
+Theorem C09_returns_position : forall c s i k,
+  0 < writeT c -> reach c s -> nth_error (calls s) i = Some k -> k_pc k = Returned ->
+  k_ret k <= N.max (k_dl k) (k_start k + (k_w k + (if k_d k then 1 else 0)) * dialT c + (if k_e k then writeT c else 0)).
+Proof. exact CallLifeProofs.returns_position. Qed.
+Print Assumptions C09_returns_position.
+
 (* the property's bound holds for every call that got connLock at once and found room in the send queue ... *)
 Theorem C09_returns_uncontended : forall c s i k,
   0 < writeT c -> reach c s -> nth_error (calls s) i = Some k -> k_pc k = Returned ->
